@@ -39,11 +39,18 @@ def programs(draw):
     pids = [9 if t < split else 11 for t in range(nth)]
     phases = [list(range(split))] + ([list(range(split, nth))] if split < nth else [])
     types = {}
+    excluded_known = 0
     used = draw(st.lists(st.integers(0, 99), min_size=ntypes, max_size=ntypes, unique=True))
     for mt in used:
         kind = draw(st.sampled_from(["single", "stack"]))
         labs = {}
         for v in draw(st.lists(st.integers(1, 6), max_size=4, unique=True)):
+            if draw(st.integers(0, 15)) == 0:
+                # a label for a value that does not fit in 32 bits
+                if EXCLUDE_BIG_LABELS:
+                    excluded_known += 1       # known finding C17-label-value-beyond-int: excluded by construction, counted
+                else:
+                    v += 2 ** 32
             labs[v] = "%s %d" % (draw(st.sampled_from(LABELS)), v)
         types[mt] = {"kind": kind, "title": "%s %d" % (draw(st.sampled_from(TITLES)), mt), "labels": labs}
     # who declares what
@@ -205,7 +212,17 @@ def programs(draw):
     shared = sum(1 for mt in types if sum(1 for d in decl if mt in d) >= 2)
     return {"nth": nth, "tids": tids, "pids": pids, "ncpus": ncpus, "types": {str(k): v for k, v in types.items()},
             "decl": [{str(k): v for k, v in d.items()} for d in decl], "ops": [[t] + o for t, o in ops],
-            "bad": bad, "nt": bool(shared or hidden)}
+            "bad": bad, "nt": bool(shared or hidden), "_excluded_known": excluded_known}
+
+
+EXCLUDE_BIG_LABELS = True
+
+
+def matches_known(case, part, k):
+    sel = k.get("selector", {})
+    if sel.get("kind") == "label-value-beyond-int" and part == "mark-programs":
+        return any(int(v) > 2 ** 31 - 1 for ty in case.get("types", {}).values() for v in ty.get("labels", {}))
+    return False
 
 
 def to_scripts(case):
@@ -241,6 +258,7 @@ def to_scripts(case):
 
 
 def run(case, ctx):
+    ctx.stats.excluded_known += case.get("_excluded_known", 0)
     scripts = to_scripts(case)
     pids = case.get("pids") or [9] * case["nth"]
     d = ctx.newdir()
